@@ -9,6 +9,7 @@ def check(ctx):
     else:
         errors.r14_err_discipline(ctx, include=lambda m: m.name != 'dataflows.cli', floor=28)
     errors.r14_funnel(ctx)
+    errors.r14_exit_methods(ctx)
     errors.r14_stash(ctx)
     # a source that is another flow is exhausted within this run, so that a step of it failing at end of stream fails this run
     from checks import C13
